@@ -143,6 +143,7 @@ def extra(repo, reg, tier, seed):
         ("fortls.parsers.internal.parser.FortranFile.parse", "call of local value fortran_def"),
         ("fortls.parsers.internal.parser.FortranFile.apply_change.check_change_reparse", "call of local value test"),
         ("fortls.main", "vars"),
+        ("fortls.parsers.internal.base.FortranObj.links_back", "getattr"),  # field name is one of three literals
         ("fortls.parsers.internal.parser.eval_pp_expr.ev", "call of Subscript"),  # table of operator.* functions
     }
     bad_dyn = [(q, w, wh) for q, w, wh in dyn if (q, w) not in allowed_dyn and not q.startswith("fortls.debug")]
